@@ -120,8 +120,12 @@ fn apply(o: Obj, c: &Value, k: usize, salt: usize) -> Result<Obj, String> {
         },
         ("push", Obj::Int(mut v)) => { if salt % 2 == 0 { for _ in 0..k { v.push(val()); } } else { v.extend(std::iter::repeat(val()).take(k)); } Obj::Int(v) },
         ("pop", Obj::Raw(mut v)) => {
-            if salt % 2 == 0 { for _ in 0..k { v.pop_bit(); } }
-            else { let mut left = k; while left > 0 { let w = left.min(37); unsafe { v.pop_int(w); } left -= w; } }
+            match salt % 3 {
+                0 => for _ in 0..k { v.pop_bit(); },
+                1 => { let mut left = k; while left > 0 { let w = left.min(37); unsafe { v.pop_int(w); } left -= w; } },
+                // the remainder first, then whole 64-bit integers: the LAST pop straddles a word boundary whenever the new length is not a multiple of 64
+                _ => { let mut left = k; if left % 64 != 0 { let w = left % 64; unsafe { v.pop_int(w); } left -= w; } while left > 0 { unsafe { v.pop_int(64); } left -= 64; } },
+            }
             Obj::Raw(v)
         },
         ("pop", Obj::Int(mut v)) => { for _ in 0..k { v.pop(); } Obj::Int(v) },
